@@ -213,6 +213,9 @@ fn main() {
                 let cases = streams::deep_none_cases(&mut rng, if o.tier == "thorough" { 60000 } else { 6000 });
                 run_rs_stream(&o, &mut rep, "deep-none", "a None that arises deep inside (missing field, index out of range, step into None, none literal, a field / index of the `facts` root when the whole input is None) under 1..5 enclosing operators, each applied with the None-valued expression in either operand position and an arbitrary pool value (including ones that alone would be a type error) in the other; the expected outcome (None / false / true) is computed from the property's rule and checked on the implementation alone, then against the model", false, cases, "full");
             }
+            if o.prop == "C02" || o.prop == "C04" {
+                run_rs_stream(&o, &mut rep, "same-operand", "every binary / lazy operator with both operands resolving to ONE stored value (a op a, facts.a op a, a op b with equal values, :s op :s, w.0 op w.0, g(a) op g(a)) for every value of the boundary pool, None included", true, streams::same_operand_cases(o.tier == "thorough"), "full");
+            }
             if o.prop == "C01" || o.prop == "C02" {
                 run_rs_stream(&o, &mut rep, "long-chains", "left-nested chains of 10 / 33 / 40 / 70 / 150 operands for every binary operator (one operator, or two of a family alternating) with a special operand (None, a type error, zero, an extreme, NaN) at the start, in the middle or at the end; lists and maps of that many items, access paths and unary towers up to 60 deep", false, streams::chain_cases(), if o.prop == "C01" { "range" } else { "full" });
                 let mut rng = rng::Rng::new(o.seed);
